@@ -20,8 +20,8 @@ TECHNIQUE = (
     "with the exact TDC reference, explicit-error rule when a fold accepts no target"
 )
 RULE = (
-    "case = C02-style dataset (1-3 files, folds 2-6, key arity, workers, chunk sizes) with estimator Lin or Cubic "
-    "(monotone non-linear), test_fdr in {0.0731, 0.1279, 0.2113, 0.31}, strong- or weak-signal data. Non-trivial: "
+    "case = C02-style dataset (1-3 files, folds 2-6, key arity, workers, chunk sizes) with estimator Lin, Cubic "
+    "(monotone non-linear) or LinBoth (decision_function plus predict_proba), test_fdr in {0.0731, 0.1279, 0.2113, 0.31}, strong- or weak-signal data. Non-trivial: "
     ">=3 folds or >=2 files, all folds calibrated, and at least one fold whose accepted set is a strict subset of its "
     "targets; or the explicit-error branch was taken. Distinct = distinct canonical JSON."
 )
@@ -43,7 +43,7 @@ def budget(tier):
 @st.composite
 def _case(draw, tier):
     weak = draw(st.sampled_from([False, False, False, False, False, True]))
-    c = draw(brewlib.cv_case(tier, estimators=("Lin", "Cubic"), fdrs=FDRS, weak=weak))
+    c = draw(brewlib.cv_case(tier, estimators=("Lin", "Cubic", "LinBoth"), fdrs=FDRS, weak=weak))
     c["cap_kind"] = draw(st.sampled_from(["none", "none", "active"]))
     if weak:
         c["test_fdr"] = draw(st.sampled_from([0.0731, 0.1279]))
